@@ -132,6 +132,11 @@ def schedules(draw, max_size=300):
             [draw(st.integers(0, 5)), draw(st.integers(0, 200)), draw(st.integers(5, 120))]
             for _ in range(draw(st.sampled_from([0, 0, 1, 2])))
         ],
+        # stall whoever reaches the k-th tile read / write (only where tile I/O is a yield point) for `dur` steps
+        "stall": [
+            [draw(st.sampled_from(["tile-write", "tile-write", "tile-read"])), draw(st.integers(0, 6)), draw(st.integers(20, 200))]
+            for _ in range(draw(st.sampled_from([0, 1, 1])))
+        ],
     }
 
 
